@@ -2270,6 +2270,7 @@ int main(int argc, char** argv)
             return 3;
         }
     }
+    g_dump_free_iters = !(a.prop == 18 || a.prop == 19);
     if ((a.mode == "graph" || a.mode == "product") && (a.cfg.nkeys < 1 || a.cfg.nkeys > MAXK))
     {
         fprintf(stderr, "HARNESS ERROR: --keys must be 1..%d\n", MAXK);
